@@ -65,6 +65,12 @@ const BASE: &[u8] = b"\x1b[1;3;9;38;5;9;48;2;1;2;3;58;5;200mB";
 /// exhaustive part: one combined sequence, checked against the model and
 /// against the separate spelling
 fn check_groups(groups: &[&str], with_base: bool) -> Result<Option<bool>, String> {
+    // the property's domain ends at 32 parameter values per sequence (sub-parameters count): a
+    // longer combined sequence is dropped as a whole by the parser, its separate spelling is not
+    let values: usize = groups.iter().map(|g| g.split([';', ':']).count()).sum();
+    if values > 32 {
+        return Ok(None);
+    }
     let mut a = if with_base { BASE.to_vec() } else { vec![] };
     a.extend(seq(groups));
     a.extend_from_slice(b"x\xc3\xa9");
@@ -273,7 +279,7 @@ fn run(args: &Args, rep: &mut Report) {
                 for with_base in [false, true] {
                     acc.eval();
                     match rt::guarded(|| check_groups(&groups, with_base)) {
-                        Ok(None) => acc.class("excluded:underline-kind-replacement"),
+                        Ok(None) => acc.class("excluded:more-than-32-parameter-values"),
                         Ok(Some(nt)) => {
                             if nt {
                                 acc.nontrivial_distinct();
